@@ -187,6 +187,24 @@ def _standin(rep, tier, seed):
             check_grid(rep, ibars, 0.0, 12.0, ns2, "integer-typed", dtype=rng.choice([int, np.int32, np.float32]))
             evals += 1
             distinct.add(("typed", ns2, len(ibars)))
+            # ... and in every memory layout (column-wise storage: np.array([births, deaths]).T, Fortran order, a strided view)
+            for layout in ("columns.T", "fortran", "strided"):
+                fb = np.array(ibars, dtype=float)
+                arr = {"columns.T": np.array([fb[:, 0], fb[:, 1]]).T, "fortran": np.asfortranarray(fb), "strided": np.repeat(fb, 2, axis=0)[::2]}[layout]
+                from persim.landscapes import PersLandscapeApprox as _PLA
+                import contextlib, io
+                with warnings.catch_warnings(), contextlib.redirect_stdout(io.StringIO()):
+                    warnings.simplefilter("ignore")
+                    try:
+                        got = np.asarray(_PLA(dgms=[arr], start=0.0, stop=12.0, num_steps=ns2, hom_deg=0).values)
+                        ref = np.asarray(_PLA(dgms=[fb.copy()], start=0.0, stop=12.0, num_steps=ns2, hom_deg=0).values)
+                    except Exception as ex:
+                        got, ref = "raised %r" % (ex,), None
+                evals += 1
+                if ref is None or got.shape != ref.shape or not np.array_equal(got, ref):
+                    rep.violation("grid landscape of %s stored %s differs from the same diagram stored row-wise: %s vs %s" % (ibars, layout, np.asarray(got).tolist() if ref is not None else got, None if ref is None else ref.tolist()),
+                                  "approx:memory-layout", {"input": {"bars": ibars, "layout": layout, "start": 0.0, "stop": 12.0, "num_steps": ns2}})
+                    break
     # transformer == approximate class; death vector; vectorize == interpolation of the exact critical pairs
     from persim.landscapes import PersLandscapeApprox, PersLandscapeExact, PersistenceLandscaper, death_vector, vectorize
     import contextlib, io
